@@ -120,6 +120,7 @@ type digest struct {
 	Asm      string `json:"asm,omitempty"` // hash of the disassembly of every package
 	UsedVars string `json:"used,omitempty"`
 	Out      string `json:"out,omitempty"`
+	AsmText  string `json:"text,omitempty"` // only filled when C30_TEXT is set (history checks)
 	asmText  string
 }
 
@@ -208,6 +209,9 @@ func childMain(file string) {
 	out := make([]digest, len(ins))
 	for i, in := range ins {
 		out[i] = buildOnce(in)
+		if len(ins) <= 8 {
+			out[i].AsmText = out[i].asmText
+		}
 	}
 	json.NewEncoder(os.Stdout).Encode(out)
 }
@@ -331,6 +335,130 @@ func shrink(in *input) *input {
 	return in
 }
 
+
+// freshSequence builds the inputs one after the other in a fresh child process and returns
+// one digest per position.
+func freshSequence(seq []*input) ([]digest, error) {
+	tmp, err := os.MkdirTemp("", "c30-seq-")
+	if err != nil {
+		return nil, err
+	}
+	defer os.RemoveAll(tmp)
+	data, _ := json.Marshal(seq)
+	file := filepath.Join(tmp, "inputs.json")
+	if err := os.WriteFile(file, data, 0o644); err != nil {
+		return nil, err
+	}
+	self, err := os.Executable()
+	if err != nil {
+		return nil, err
+	}
+	cmd := exec.Command(self)
+	cmd.Env = append(os.Environ(), "C30_CHILD="+file)
+	cmd.Stderr = os.Stderr
+	out, err := cmd.Output()
+	if err != nil {
+		return nil, err
+	}
+	var ds []digest
+	if err := json.Unmarshal(out, &ds); err != nil {
+		return nil, err
+	}
+	if len(ds) != len(seq) {
+		return nil, fmt.Errorf("%d digests for %d inputs", len(ds), len(seq))
+	}
+	return ds, nil
+}
+
+// historyDiffers: in a fresh process, does building b between two builds of a change a's result?
+func historyDiffers(a, b *input) (bool, digest, digest) {
+	ds, err := freshSequence([]*input{a, b, a})
+	if err != nil {
+		return false, digest{}, digest{}
+	}
+	return ds[0].key() != ds[2].key(), ds[0], ds[2]
+}
+
+var typifyRe = regexp.MustCompile(`Typify \S+ `)
+
+// onlyBoolConstantType reports whether two disassemblies differ only in the type named by
+// Typify instructions — the symptom of finding history-universe-bool: the type info of the
+// predeclared true/false, shared by all builds of a process, keeps the type a previous build
+// gave it.
+func onlyBoolConstantType(a, b string) bool {
+	la, lb := strings.Split(a, "\n"), strings.Split(b, "\n")
+	if len(la) != len(lb) {
+		return false
+	}
+	diff := false
+	for i := range la {
+		if la[i] == lb[i] {
+			continue
+		}
+		if typifyRe.ReplaceAllString(la[i], "Typify T ") != typifyRe.ReplaceAllString(lb[i], "Typify T ") {
+			return false
+		}
+		diff = true
+	}
+	return diff
+}
+
+// shrinkPair deletes lines of b's then a's main source while the pair stays history-dependent
+// in a fresh process (bounded number of child runs).
+func shrinkPair(a, b *input) (*input, *input) {
+	budget := 80
+	mainOf := func(in *input) string {
+		if in.Prog {
+			return "main.go"
+		}
+		return in.Main
+	}
+	load := func(in *input) *input {
+		if in.Files != nil {
+			return in
+		}
+		if !in.Prog || in.Main == "" {
+			return nil
+		}
+		src, err := os.ReadFile(filepath.Join(in.Dir, in.Main))
+		if err != nil {
+			return nil
+		}
+		return &input{Name: in.Name, Files: map[string]string{"main.go": string(src)}, Prog: true}
+	}
+	la, lb := load(a), load(b)
+	if la == nil || lb == nil {
+		return a, b
+	}
+	a, b = la, lb
+	with := func(in *input, s string) *input {
+		fs := map[string]string{}
+		for k, v := range in.Files {
+			fs[k] = v
+		}
+		fs[mainOf(in)] = s
+		return &input{Name: in.Name, Files: fs, Main: in.Main, Prog: in.Prog, Run: in.Run}
+	}
+	min := func(in *input, test func(*input) bool) *input {
+		lines := strings.SplitAfter(in.Files[mainOf(in)], "\n")
+		for chunk := len(lines) / 2; chunk >= 1 && budget > 0; chunk /= 2 {
+			for i := 0; i+chunk <= len(lines) && budget > 0; {
+				cand := append(append([]string{}, lines[:i]...), lines[i+chunk:]...)
+				budget--
+				if test(with(in, strings.Join(cand, ""))) {
+					lines = cand
+				} else {
+					i += chunk
+				}
+			}
+		}
+		return with(in, strings.Join(lines, ""))
+	}
+	b = min(b, func(x *input) bool { d, _, _ := historyDiffers(a, x); return d })
+	a = min(a, func(x *input) bool { d, _, _ := historyDiffers(x, b); return d })
+	return a, b
+}
+
 func firstDiffLine(a, b string) string {
 	la, lb := strings.Split(a, "\n"), strings.Split(b, "\n")
 	for i := 0; i < len(la) && i < len(lb); i++ {
@@ -347,7 +475,7 @@ func run(c *hx.Ctx) error {
 	c.R = proto.NewRand(c.R.U64())
 	res := c.Res
 	inproc, procs := 8, 3
-	res.Rule = fmt.Sprintf("programs and templates of /repo/test/compare/testdata (single files, .dir programs and templates) and generated ones (package-level multi-value var declarations, many globals with initialisation dependencies, functions sharing a line, closures, a second package in the module, init functions; templates with macros, imports, extends, using/itea, global variables), each built %d times in this process and once in each of %d child processes; a case is one input, distinct by source, non-trivial when it builds without error", inproc, procs)
+	res.Rule = fmt.Sprintf("programs and templates of /repo/test/compare/testdata (single files, .dir programs and templates) and generated ones (package-level multi-value var declarations, many globals with initialisation dependencies, functions sharing a line, closures, a second package in the module, init functions; templates with macros, imports, extends, using/itea, global variables), each built %d times in this process and once in each of %d child processes, and random triples build A, build B, build A (A, B any two inputs) whose two A results must coincide; a case is one input, distinct by source, non-trivial when it builds without error", inproc, procs)
 
 	// the site list and the model of the loop classes
 	if c.D != nil {
@@ -512,6 +640,63 @@ func run(c *hx.Ctx) error {
 				break
 			}
 		}
+	}
+
+	// history: building something else in between must not change what a build gives
+	type pairT struct{ A, B string }
+	for _, f := range c.Findings {
+		var pr pairT
+		if json.Unmarshal([]byte(f.Minimal), &pr) != nil || pr.A == "" {
+			continue
+		}
+		a := &input{Name: "finding " + f.ID + " A", Files: map[string]string{"main.go": pr.A}, Prog: true, Run: true}
+		b := &input{Name: "finding " + f.ID + " B", Files: map[string]string{"main.go": pr.B}, Prog: true, Run: true}
+		if differs, d1, d2 := historyDiffers(a, b); differs {
+			res.AddBreak(proto.Break{Kind: "property", Name: "history-dependent-build", Case: "build A, build B, build A in one process", Human: "--- A ---\n" + pr.A + "\n--- B ---\n" + pr.B,
+				Impl: firstDiffLine(d1.AsmText, d2.AsmText), Model: "the two builds of A coincide", Finding: f.ID})
+		}
+	}
+	var cand []int
+	for i := range ins {
+		if !skip[i] && first[i].Err == "" {
+			cand = append(cand, i)
+		}
+	}
+	historyReported := 0
+	for k := 0; k < c.N(500, 6000) && len(cand) > 1; k++ {
+		ia, ib := cand[c.R.Intn(len(cand))], cand[c.R.Intn(len(cand))]
+		if ia == ib || ins[ia].Prog != ins[ib].Prog && c.R.Intn(2) == 0 {
+			continue
+		}
+		a, b := ins[ia], ins[ib]
+		d1 := buildOnce(a)
+		buildOnce(b)
+		d2 := buildOnce(a)
+		res.Hist("history-triples")
+		if d1.key() == d2.key() {
+			continue
+		}
+		if c.HasFinding("history-universe-bool") && d1.Err == "" && d2.Err == "" && d1.UsedVars == d2.UsedVars && onlyBoolConstantType(d1.asmText, d2.asmText) {
+			res.Hist("history-triples-matching-known-finding")
+			continue
+		}
+		if historyReported >= 2 {
+			continue
+		}
+		historyReported++
+		sa, sb := a, b
+		detail := firstDiffLine(d1.asmText+d1.Err, d2.asmText+d2.Err)
+		if fresh, f1, f2 := historyDiffers(a, b); fresh {
+			sa, sb = shrinkPair(a, b)
+			if ok, g1, g2 := historyDiffers(sa, sb); ok {
+				f1, f2 = g1, g2
+			}
+			detail = firstDiffLine(f1.AsmText+f1.Err, f2.AsmText+f2.Err)
+		} else {
+			detail += " (only after the builds that preceded it in this run)"
+		}
+		res.AddBreak(proto.Break{Kind: "property", Name: "history-dependent-build", Case: a.Name + " / " + b.Name + " / " + a.Name, Human: "=== A ===\n" + sa.human() + "\n=== B ===\n" + sb.human(),
+			Impl: detail, Model: "the two builds of A coincide"})
 	}
 
 	// child processes
